@@ -35,7 +35,7 @@ class MixDriver:
         self.p_suspend = p_suspend
         self.p_bad = p_bad
         self.bad_kinds = bad_kinds or ["oversell-cpu", "oversell-ram", "suspend-mid", "suspend-unknown",
-                                       "unknown-pool", "suspend-wrong-pool", "reassign"]
+                                       "unknown-pool", "suspend-wrong-pool", "reassign", "oversell-releasing", "oversell-releasing"]
         self.oversize = oversize
         self.integer_sizes = integer_sizes
         self.p_unready = p_unready
@@ -177,6 +177,8 @@ class MixDriver:
                 if ram <= 0 or cpu <= 0:
                     break
                 step["asg"].append({"pool": k, "cpu": cpu, "ram": ram, "ops": [list(x) for x in ops]})
+                if rng.random() < 0.25:
+                    step["asg"][-1]["resume"] = True          # the is_resume flag of the API: a label, nothing else
                 budget_c -= cpu
                 if not w.overcommit:
                     budget_r -= ram
@@ -212,6 +214,22 @@ class MixDriver:
             elif not w.overcommit:
                 a["ram"] += (w.free_ram[k] - tot_r) + rng.choice([1, 0.001, 2, 0.5])
                 step["_bad"] = bad_kind
+        elif bad_kind == "oversell-releasing":
+            # a request that only fits with what a container in its *last* write-out tick is about to give back:
+            # the allocation is kept until the write-out is over, so this batch oversells the pool
+            cands = [mc for k in range(w.npools) for mc in w.suspending[k] if mc.sus_left == 1]
+            grp = [g for g in groups if g[2]]
+            if cands and grp:
+                mc = rng.choice(cands)
+                k = mc.pool
+                pi, keys, ready = grp[0]
+                cpu = w.free_cpu[k] + max(1, int(mc.cpu * rng.choice([0.5, 1.0]))) if mc.cpu >= 1 else w.free_cpu[k] + mc.cpu
+                ram = min(w.free_ram[k], 1.0) if w.free_ram[k] > 0.01 else 0.5
+                if cpu > w.free_cpu[k] and (ram <= w.free_ram[k] or w.overcommit):
+                    step["asg"] = [{"pool": k, "cpu": cpu, "ram": ram, "ops": [list(ready[0])]}]
+                    step["sus"] = [s_ for s_ in step["sus"] if s_["pool"] != k]
+                    step["_bad"] = "oversell-cpu"
+                    step["_releasing"] = True
         elif bad_kind == "unknown-pool" and (step["asg"] or step["sus"]):
             tgt = rng.choice(step["asg"] or step["sus"])
             tgt["pool"] = rng.choice([-1, w.npools, w.npools + 3, 10 ** 6])
@@ -223,6 +241,8 @@ class MixDriver:
                 k = rng.randrange(w.npools)
                 if w.free_cpu[k] >= 1 and w.free_ram[k] > 0:
                     step["asg"] = [{"pool": k, "cpu": 1, "ram": min(w.free_ram[k], 1.0), "ops": [list(key)]}]
+                    if rng.random() < 0.5:
+                        step["asg"][0]["resume"] = True      # "resuming" work that is still being written out / running
                     step["sus"] = []
                     step["_bad"] = bad_kind
         return step
